@@ -154,6 +154,62 @@ def master(sig: int, d: List[int], stub: List[bool], reexec: bool, child_of: boo
     return pidrec.unlinked >= 1
 
 
+# ---- 1b. the pid file is gone after a graceful stop, also when reloads came first (real Pidfile on the FS stub) -----------
+def pidfile_gone(pf: int, hups: int, sig: int) -> bool:
+    """
+    pre: 1 <= pf <= 2 and 0 <= hups <= 2 and 0 <= sig <= 3
+    post: __return__
+    """
+    # sig 0..2: TERM / INT / QUIT after the reloads; sig 3: no stop signal - the master keeps running and its pid file must
+    # still name it under the configured path
+    import gunicorn.pidfile as PF
+    from engine.stubs.fs import FS, install as fs_install
+    from harness.c10 import mk_cfg, Lsn as Lsn10
+    pf, hups, sig = pick(pf, 1, 2), pick(hups, 0, 2), pick(sig, 0, 3)
+    stops = [] if sig == 3 else [[int(signal.SIGTERM), int(signal.SIGINT), int(signal.SIGQUIT)][sig]]
+    K = KS.Kernel(master_signals=[int(signal.SIGHUP)] * hups + stops, budget=hups + 5)
+    K.exit_after = {i: 0 for i in range(8)}
+    arb = mk_arbiter(K, 1, timeout=30)
+    old_pf = "/run/a.pid"
+    new_pf = [None, "/run/a.pid", "/run/b.pid"][pf]             # reload keeps the path / moves it
+    arb.cfg = mk_cfg(1, "127.0.0.1:8000", old_pf, K)
+    arb.setup(SimpleNamespace(cfg=arb.cfg, wsgi=lambda: None))
+    arb.cfg.graceful_timeout                                       # (real Config value; workers exit at once here)
+    new_cfg = mk_cfg(1, "127.0.0.1:8000", new_pf, K)
+    arb.app = SimpleNamespace(cfg=arb.cfg)
+
+    def app_reload():
+        arb.app.cfg = new_cfg
+    arb.app.reload = app_reload
+    arb.LISTENERS = [Lsn10(("127.0.0.1", 8000))]
+    fs = FS({}, alive={arb.pid}, pid=arb.pid)
+    undo_fs = fs_install(PF, fs)
+    undo = KS.install(A, K)
+    A.sock = ns("A.sock", create_sockets=lambda cfg, log, fds=None: [Lsn10(a) for a in cfg.address],
+                close_sockets=lambda l, u=True: None)
+    code = None
+    try:
+        arb.pidfile = PF.Pidfile(old_pf)
+        arb.pidfile.create(arb.pid)                                # as Arbiter.start() does
+        try:
+            arb.run()
+        except KS.LoopBudget:
+            pass
+        except SystemExit as e:
+            code = e.code
+    finally:
+        undo()
+        undo_fs()
+    if K.master_signals:
+        return False
+    if sig == 3:
+        want = new_pf if hups else old_pf
+        return code is None and fs.files == {want: ("%d\n" % arb.pid).encode()} and not fs.fds
+    if code != 0:
+        return False
+    return fs.files == {} and not fs.fds                           # no pid file (old or new name) and no temp file is left
+
+
 def master_twin(sig: int, d: List[int], stub: List[bool], reexec: bool, child_of: bool) -> bool:
     """
     pre: sig == CASE["sig"] and reexec == CASE["reexec"] and child_of == CASE["child_of"]
@@ -534,6 +590,9 @@ OBLIGATIONS = [
        timeout={"quick": 600, "thorough": 3000},
        bound="TERM|INT|QUIT x 0..2 (thorough 3) workers each exiting after a symbolic 0..0.9 s or never x graceful_timeout 0.5 s "
              "x reexec_pid/master_pid set or not; unix + TCP listener"),
+    Ob("C04.pidfile_gone", "pidfile_gone", timeout=600,
+       bound="start with a pid file, 0..2 reloads that keep or move the path, then TERM / INT / QUIT: real Arbiter.run/reload/halt "
+             "with the real Pidfile class on the FS stub"),
     Ob("C04.master.twin", "master_twin", cases=[{"n": 2, "sig": 0, "reexec": False, "child_of": False}], expect="refute", timeout=300),
     Ob("C04.sync_term", "sync_term", cases={"quick": [{"tmax": 8, "nconn": 2}], "thorough": [{"tmax": 12, "nconn": 3}]},
        timeout=900, bound="<=2 (3) connections, request head whole or split at offset 5/16/len-1 into 2 reads, TERM at any of "
